@@ -3,6 +3,7 @@ package main
 import (
 	"go/token"
 	"go/types"
+	"strings"
 
 	"golang.org/x/tools/go/ssa"
 )
@@ -315,7 +316,7 @@ func init() {
 		Rules: []func(*Ctx){func(c *Ctx) { ruleC12a(c, "C12.a") }, func(c *Ctx) { ruleC12b(c, "C12.b") }, func(c *Ctx) { ruleC12c(c, "C12.c") }, func(c *Ctx) { ruleC12d(c, "C12.d") }, func(c *Ctx) { ruleC12e(c, "C12.e") }, func(c *Ctx) { ruleC02f(c, "C12.f") }, func(c *Ctx) { ruleC12h(c, "C12.h") }, func(c *Ctx) {
 			c.describe("C12.g", "dom: a rejected entry still advances the offset (t.skip)")
 			ruleSkipOnReject(c, "C12.g")
-		}, func(c *Ctx) { ruleC12k(c, "C12.k") }, func(c *Ctx) {
+		}, func(c *Ctx) { ruleC12k(c, "C12.k") }, func(c *Ctx) { ruleC12l(c, "C12.l") }, func(c *Ctx) { ruleC12m(c, "C12.m") }, func(c *Ctx) {
 			c.describe("C12.j", "= C10.c: leader and follower hash the same partition keys in the same order (the follower's table.PartitionBy is the sorted list it announced)")
 			ruleC10c(c, "C12.j")
 		}},
@@ -428,4 +429,116 @@ func ruleC12k(c *Ctx, rule string) {
 		return
 	}
 	c.check(rule, "follower.submit delivers with a blocking send", sb.Pos(), bad == "", "f.entries <- entry blocks until the follower's queue takes the entry", "the send to the follower's queue is non-blocking (select with default at "+bad+"): when the queue is full the entry — and, once the follower is marked failed, every later one — is dropped while the follower's stream stays open, so the follower silently misses data")
+}
+
+// ruleC12l: a follower asks each leader to resume from the EARLIEST position any
+// of its tables still needs.
+func ruleC12l(c *Ctx, rule string) {
+	c.describe(rule, "dom: in doFollowLeaders' makeFollows the per-source resume offset is the minimum over the tables' offsets — an entry of the map is replaced only when it is unset or After(the candidate) — and is never built with OffsetsBySource.Advance (the per-source maximum): a table that lags behind the others (flushed earlier before the restart) would otherwise never be sent the entries between its own offset and the newest table's")
+	fn := c.need(rule, "(*z.DB).doFollowLeaders")
+	if fn == nil {
+		return
+	}
+	var mf *ssa.Function
+	for _, a := range withHelpers(c.P, fn) {
+		if a == fn || a.Signature.Results().Len() != 1 {
+			continue
+		}
+		if typeStr(a.Signature.Results().At(0).Type()) == "map[int]*z/common.Follow" {
+			mf = a
+		}
+	}
+	if mf == nil {
+		c.undecided(rule, "makeFollows", fn.Pos(), "no closure/helper returning map[int]*common.Follow found")
+		return
+	}
+	c.touch(mf)
+	if adv := callsToDeep(mf, "(z/common.OffsetsBySource).Advance"); len(adv) > 0 {
+		c.bad(rule, "makeFollows takes the earliest offset per source", adv[0].Pos(), "the resume offsets are combined with OffsetsBySource.Advance, which keeps the LATEST offset per source: the follower asks the leader to resume after the newest table's position and the tables that are behind never receive the entries in between")
+		return
+	}
+	n, ok := 0, true
+	for _, in := range instrs(mf) {
+		mu, isMU := in.(*ssa.MapUpdate)
+		if !isMU || len(loopsContaining(mf, mu.Block())) < 2 {
+			continue // initialisation (outer loop over sources) or not in the tables×sources loops
+		}
+		if isNilConst(mu.Value) {
+			continue
+		}
+		n++
+		// guard: current == nil || current.After(candidate)   (lowered to two branches)
+		min := false
+		for _, p := range mu.Block().Preds {
+			i := ifOf(p)
+			if i == nil {
+				continue
+			}
+			v, pol := unNot(i.Cond, p.Succs[0] == mu.Block())
+			if call, isAfter := isAfterCall(v); isAfter && pol && sameValue(call.Call.Args[1], mu.Value) {
+				min = true
+			}
+		}
+		for _, g := range guardsOf(mu.Block()) {
+			if call, isAfter := isAfterCall(g.v); isAfter && g.pos && sameValue(call.Call.Args[1], mu.Value) {
+				min = true
+			}
+		}
+		if !min {
+			ok = false
+		}
+	}
+	c.check(rule, "makeFollows takes the earliest offset per source", mf.Pos(), ok && n > 0, "an entry is replaced only when unset or After(candidate)", "the per-source resume offset is not the minimum over the tables' offsets: a lagging table loses the entries the other tables have already seen")
+}
+
+// ruleC12m: entries are released to followers in WAL order.
+func ruleC12m(c *Ctx, rule string) {
+	c.describe(rule, "reg: the results of the parallel per-entry workers are put back into WAL order with wal.Offset.After — the total order over (file sequence, position) — not with one component of the offset: sorted by position alone, entries around a WAL segment boundary are released out of order and the per-follower 'newer than the last one sent' filter drops the ones that come late")
+	rp := c.need(rule, "(*z.DB).reducePartitionRequests")
+	if rp == nil {
+		return
+	}
+	// the comparator: Less of the slice type, or the closure given to sort.Slice
+	var less []*ssa.Function
+	for fn := range c.P.AllFns {
+		if fn.Name() == "Less" && fn.Signature.Recv() != nil && strings.Contains(typeStr(fn.Signature.Recv().Type()), "partitionsResult") && fn.Synthetic == "" && len(fn.Blocks) > 0 {
+			less = append(less, fn)
+		}
+	}
+	for _, f := range withAnon(rp) {
+		for _, call := range calls(f) {
+			if isCall(call, "sort.Slice") || isCall(call, "sort.SliceStable") {
+				if mc, ok := call.Common().Args[1].(*ssa.MakeClosure); ok {
+					if cl, isF := mc.Fn.(*ssa.Function); isF {
+						less = append(less, cl)
+					}
+				}
+			}
+		}
+	}
+	if len(less) == 0 {
+		c.undecided(rule, "reducePartitionRequests orders by wal.Offset.After", rp.Pos(), "no comparator for the buffered partition results found")
+		return
+	}
+	for _, f := range less {
+		c.touch(f)
+		ok, n := true, 0
+		for _, in := range instrs(f) {
+			r, isR := in.(*ssa.Return)
+			if !isR {
+				continue
+			}
+			n++
+			if _, isAfter := isAfterCall(strip(r.Results[0])); !isAfter {
+				ok = false
+			}
+		}
+		for _, call := range calls(f) {
+			cn := calleeName(call)
+			if strings.HasSuffix(cn, ".Position") || strings.HasSuffix(cn, ".FileSequence") {
+				ok = false
+			}
+		}
+		c.check(rule, "reducePartitionRequests orders by wal.Offset.After", f.Pos(), ok && n > 0, "the comparator returns offset.After(offset)", "the buffered per-entry results are ordered by something other than wal.Offset.After (e.g. the byte position only): across a WAL segment boundary entries reach the followers out of order and the later-released ones are filtered out as already seen")
+	}
 }
